@@ -3,10 +3,11 @@ package main
 // Calls: contracts, inlining with merge, extern models, havoc; returns and defers.
 
 import (
-	"regexp"
 	"fmt"
 	"go/token"
 	"go/types"
+	"regexp"
+	"sort"
 	"strings"
 
 	"golang.org/x/tools/go/ssa"
@@ -83,11 +84,78 @@ func (e *Engine) doCall(st *State, fr *Frame, res ssa.Value, c *ssa.CallCommon, 
 		e.havocCalls["dynamic call ("+effSummary(eff)+")"]++
 		e.havocEffect(st, eff, "dynamic call in "+shortFn(fr.fn))
 		if rt := e.resultType(c); rt != nil {
-			e.bindResult(st, res, e.freshVal(st, "r", rt))
+			rv := e.freshVal(st, "r", rt)
+			e.bindResult(st, res, rv)
+			e.dynamicEnsures(st, fr, c, rv, ins.Pos())
 		}
 		return nil, true
 	}
 	return e.callStatic(st, fr, res, callee, env, args, c, ins.Pos())
+}
+
+// dynamicEnsures implements `dynamic-ensures LABEL`: at a call through a function value, when every
+// function the call can reach (VTA call graph) carries an `ensures [LABEL]` clause with the same text
+// - each of them is verified against it as its own unit - that clause is assumed for the results.
+// A possible callee without the clause is a failed K5 obligation.
+func (e *Engine) dynamicEnsures(st *State, fr *Frame, c *ssa.CallCommon, rv Val, pos token.Pos) {
+	if e.con == nil || fr == nil || fr.fn != e.fn {
+		return
+	}
+	for _, cl := range e.con.get("dynamic-ensures") {
+		if len(cl.Args) == 0 || (len(cl.Props) > 0 && !e.sharesProp(cl.Props)) {
+			continue
+		}
+		label := cl.Args[0]
+		callees := e.P.siteCallees(fr.fn, c)
+		var miss []string
+		var found *Clause
+		var foundFn *ssa.Function
+		for _, g := range callees {
+			var hit *Clause
+			if g.Synthetic != "" && g.Object() != nil { // bound-method wrapper: the method itself
+				if mf, ok := g.Object().(*types.Func); ok {
+					if f := e.P.prog.FuncValue(mf); f != nil {
+						g = f
+					}
+				}
+			}
+			if gc := e.P.contractFor(g); gc != nil {
+				for _, ec := range gc.get("ensures") {
+					if ec.Label == label {
+						hit = ec
+					}
+				}
+			}
+			switch {
+			case hit == nil:
+				miss = append(miss, shortFn(g))
+			case found == nil:
+				found, foundFn = hit, g
+			case hit.Text != found.Text:
+				miss = append(miss, shortFn(g)+" (different text)")
+			}
+		}
+		name, where := e.siteName(fr, "dyn", pos, "every callee ensures "+label)
+		if len(callees) == 0 || len(miss) > 0 {
+			sort.Strings(miss)
+			e.oblige(st, name, "K5", fmt.Sprintf("every function this call can reach carries `ensures [%s]` (callees=%d, without it: %s)", label, len(callees), strings.Join(miss, ", ")), "false", where, cl.Props)
+			continue
+		}
+		e.oblige(st, name, "K5", fmt.Sprintf("every function this call can reach carries `ensures [%s]` (%d callees, each verified against it)", label, len(callees)), "true", where, cl.Props)
+		var rs []Val
+		if rv.K == KTuple {
+			rs = rv.F
+		} else {
+			rs = []Val{rv}
+		}
+		env := e.calleeEnv(foundFn, nil, nil)
+		e.bindResults(env, foundFn.Signature, rs)
+		nerr := len(e.specErrors)
+		g := e.evalSpecBool(st, st, found.Expr, env)
+		if len(e.specErrors) == nerr {
+			st.assume(g)
+		}
+	}
 }
 
 func (e *Engine) resultType(c *ssa.CallCommon) types.Type {
@@ -1012,11 +1080,11 @@ func (e *Engine) appendOp(st *State, s, extra Val, rt types.Type) Val {
 type SpecEnv struct {
 	rootParams       map[string]bool
 	localsOnlyDollar bool
-	vars map[string]Val
-	pkg  *types.Package
-	fn   *ssa.Function
-	fr   *Frame // for resolving named locals (root only)
-	free map[string]Val // captured variables (closures): name -> address of the captured cell
+	vars             map[string]Val
+	pkg              *types.Package
+	fn               *ssa.Function
+	fr               *Frame         // for resolving named locals (root only)
+	free             map[string]Val // captured variables (closures): name -> address of the captured cell
 }
 
 func (e *Engine) calleeEnv(callee *ssa.Function, args []Val, bind []Val) *SpecEnv {
@@ -1487,7 +1555,6 @@ func calleeMatches(callee, pat string) bool {
 	return false
 }
 
-
 // pureResult: result of a call that has no effect on modelled memory. When the callee is
 // deterministic, the result is an uninterpreted function of the arguments (and of the heap
 // snapshot when an argument is a reference), so that equal calls give equal results.
@@ -1693,11 +1760,9 @@ func sexpParts(s string) []string {
 	return out
 }
 
-
 func (e *Engine) noVisibilityFrame() bool {
 	return e.con != nil && e.con.has("no-visibility-frame")
 }
-
 
 // foreignOrFullHavoc: a callee whose contract gives no frame: use the inferred write effect.
 func (e *Engine) foreignOrFullHavoc(st *State, callee *ssa.Function, why string) {
@@ -1717,7 +1782,6 @@ func lastName(s string) string {
 	}
 	return s
 }
-
 
 func rankOf(con *Contract) int {
 	r := 0
@@ -1760,7 +1824,6 @@ func (e *Engine) variantCheck(st *State, fr *Frame, callee *ssa.Function, con *C
 	name, where := e.siteName(fr, "variant", pos, shortFn(callee))
 	e.oblige(st, name, "K4", "recursion measure ("+rd[0].Text+", rank) decreases at the call and stays >= 0", goal, where, rd[0].Props)
 }
-
 
 func (e *Engine) resultTypeOfSig(sig *types.Signature) types.Type {
 	if sig.Results().Len() == 1 {
